@@ -217,6 +217,7 @@ def rule_strictness(ctx):
             continue
         lens_doc = {len(f) for f in fmts}
         _payload_shape_cells(ctx, m, c, fmts)
+        ctx._c08_optcells = getattr(ctx, '_c08_optcells', []) + [(c, fmts)]
         # accepted lengths
         lens = set()
         for rs in ret_states:
@@ -247,9 +248,11 @@ def rule_strictness(ctx):
                            f"wmsg[{i}] ({name}) not validated as a str-keyed dict", fn.loc())
 
 
-def parse_on(ctx, m, c, wmsg, rule_tag="C08.3-strictness"):
-    """Abstract evaluation (sa.core.tiny) of `c.parse` on the raw message `wmsg`: (outcome, [constructor arguments by name])."""
-    from ..core.tiny import Tiny, Sym
+def parse_on(ctx, m, c, wmsg, rule_tag="C08.3-strictness", typed_validators=False, trace=None):
+    """Abstract evaluation (sa.core.tiny) of `c.parse` on the raw message `wmsg`: (outcome, [constructor arguments by name]).
+    typed_validators: the check_or_raise_* validators answer by their extension (decided separately by the C08.3 validator obligations):
+    an id is a non-bool int in 0..2^53, a URI / realm a str (None where allowed), extra a dict; everything else is a ProtocolError."""
+    from ..core.tiny import Tiny, Sym, TinyRaise
     fn = c.methods["parse"]
     prm = fn.params()
     body = [s_ for s_ in fn.node.body if not (isinstance(s_, ast.Expr) and isinstance(s_.value, ast.Constant))]
@@ -260,12 +263,62 @@ def parse_on(ctx, m, c, wmsg, rule_tag="C08.3-strictness"):
         except KeyError:
             pass
     made = []
+    depth = [0]
+
+    for s_ in c.node.body:
+        if isinstance(s_, ast.Assign) and len(s_.targets) == 1 and isinstance(s_.targets[0], ast.Name) and isinstance(s_.value, ast.Constant):
+            env.setdefault(f"{c.name}.{s_.targets[0].id}", s_.value.value)
 
     def oracle(fname, args, kwargs=None):
+        if fname.startswith("check_or_raise_") and trace is not None:
+            vf_ = m.funcs.get(fname)
+            tb_ = {}
+            if vf_ is not None:
+                nm_ = vf_.params()
+                df_ = vf_.node.args.defaults
+                tb_ = {n_: (d_.value if isinstance(d_, ast.Constant) else None) for n_, d_ in zip(nm_[len(nm_) - len(df_):], df_)}
+                tb_.update(dict(zip(nm_, args)))
+            tb_.update(kwargs or {})
+            trace.append((fname, tb_))
+        if fname.startswith("check_or_raise_") and typed_validators:
+            v = args[0]
+            kw = kwargs or {}
+            if fname == "check_or_raise_id":
+                ok = type(v) == int and 0 <= v <= 2 ** 53
+            elif fname == "check_or_raise_extra":
+                ok = type(v) == dict
+            else:
+                vf = m.funcs.get(fname)
+                b_ = dict(zip(vf.params(), args)) if vf is not None else {}
+                b_.update(kw)
+                allow_none = b_.get("allow_none", False)
+                ok = type(v) == str or (v is None and allow_none is True)
+            if not ok:
+                raise TinyRaise("ProtocolError")
+            return v
         if fname.startswith("check_or_raise_"):
             return args[0]
         if fname.startswith("is_valid_"):
             return True
+        if fname in m.funcs and depth[0] < 3:
+            # a module-level helper (predicate) of the parser: evaluated on the cell like the parser itself
+            g_ = m.funcs[fname]
+            names_ = g_.params()
+            dflt = g_.node.args.defaults
+            b_ = {n_: (d_.value if isinstance(d_, ast.Constant) else None) for n_, d_ in zip(names_[len(names_) - len(dflt):], dflt)}
+            b_.update(dict(zip(names_, args)))
+            b_.update(kwargs or {})
+            gb = [s_ for s_ in g_.node.body if not (isinstance(s_, ast.Expr) and isinstance(s_.value, ast.Constant))]
+            depth[0] += 1
+            try:
+                r_ = Tiny(b_, default_call=oracle, model_types=True, model_strings=True, opaque_globals=True).run(gb)
+            finally:
+                depth[0] -= 1
+            if r_[0] == "return":
+                return r_[1]
+            if r_[0] == "raise":
+                raise TinyRaise(str(r_[1]).split("(")[0].strip().split(".")[-1])
+            return None
         if fname == c.name:
             names = c.methods["__init__"].params()[1:]
             b_ = dict(zip(names, args))
@@ -352,6 +405,99 @@ def _payload_shape_cells(ctx, m, c, fmts):
     ctx.ob(f"{c.name}.parse: after the documented prefix exactly the tails `list`, `list, dict` and `octets` (payload passthru) are accepted, each into its own "
            f"constructor argument [{len(shapes)} cells]", not bad, "; ".join(bad[:2]), fn.loc())
     return len(shapes)
+
+
+# options / details that carry WAMP ids (frozen table, one reason each); the statement wants ids outside 0..2^53 refused wherever they appear
+ID_OPTIONS = {
+    "publisher": "session id of the publisher (EVENT details)",
+    "caller": "session id of the caller (CALL options / INVOCATION details)",
+    "callee": "session id of the callee (RESULT / YIELD / ERROR details)",
+    "subscription": "subscription id (UNSUBSCRIBED details)",
+    "registration": "registration id (UNREGISTERED details)",
+    "resume-session": "session id to resume (HELLO details)",
+}
+ID_LIST_OPTIONS = {
+    "exclude": "list of session ids (PUBLISH options)",
+    "eligible": "list of session ids (PUBLISH options)",
+}
+_FAMILIES = ("bool", "int", "str", "list", "dict", "bytes", "float", "none")
+
+
+def _option_witnesses():
+    from ..core.tiny import Buf
+    ff = lambda s_: [{"session": s_, "authid": "a", "authrole": "r"}]
+    return [("True", True, "bool"), ("1", 1, "int"), ("0", 0, "int"), ("-1", -1, "int"), ("2**60", 2 ** 60, "int"), ("1.0", 1.0, "float"), ("1.5", 1.5, "float"),
+            ("'x'", "x", "str"), ("''", "", "str"), ("b'x'", Buf(0, 1), "bytes"), ("[]", [], "list"), ("['x']", ["x"], "list:str"), ("[1]", [1], "list:int"),
+            ("[-1]", [-1], "list:int"), ("[2**60]", [2 ** 60], "list:int"), ("[True]", [True], "list:bool"), ("[[]]", [[]], "list:list"),
+            ("{}", {}, "dict"), ("None", None, "none"),
+            ("[{session: 1, authid, authrole}]", ff(1), "list:ff"), ("[{session: -1, ..}]", ff(-1), "list:ff"), ("[{session: 2**60, ..}]", ff(2 ** 60), "list:ff"),
+            ("[{session: True, ..}]", ff(True), "list:ffbad"), ("[{session: 'x', ..}]", ff("x"), "list:ffbad")]
+
+
+def _option_type_cells(ctx, m, c, fmts):
+    """Every option / detail key that parse() reads, evaluated cell-wise (sa.core.tiny, validators answered by their extension): the documented
+    message with that one key bound to a witness of every JSON/CBOR type and boundary value. The accepted witnesses of one key must all belong to
+    one type (a key that takes True must refuse 1 / 0 / 1.0, which `x in [True, False]` lets through; a key that takes 1 must refuse True and 1.5),
+    and keys that carry ids (ID_OPTIONS) must refuse -1 and 2**60."""
+    with_dict = [f for f in fmts if any(p_.split("|")[-1].strip() == "dict" for p_ in f)]
+    if not with_dict:
+        return 0
+    fn = c.methods["parse"]
+    prefix = doc_prefix(ctx, m, c, [min(with_dict, key=len)])
+    dpos = [i for i, v in enumerate(prefix) if isinstance(v, dict)][0]
+    base, _ = parse_on(ctx, m, c, prefix, "C08.6-option-types", typed_validators=True)
+    if base[0] != "return":
+        ctx.note(f"{c.name}: the documented minimal message is not accepted as is ({base[0]} {str(base[1])[:40]}): option cells skipped")
+        return 0
+    keys = set()
+    for x in ast.walk(fn.node):
+        if isinstance(x, ast.Compare) and isinstance(x.left, ast.Constant) and isinstance(x.left.value, str) and len(x.ops) == 1 and isinstance(x.ops[0], (ast.In, ast.NotIn)) \
+                and isinstance(x.comparators[0], ast.Name):
+            keys.add(x.left.value)
+        if isinstance(x, ast.Call) and isinstance(x.func, ast.Attribute) and x.func.attr == "get" and x.args and isinstance(x.args[0], ast.Constant) and isinstance(x.args[0].value, str):
+            keys.add(x.args[0].value)
+    W = _option_witnesses()
+    n = 0
+    for k in sorted(keys):
+        acc = []
+        for nm, w, fam in W:
+            msg = list(prefix)
+            msg[dpos] = {k: w}
+            r, made = parse_on(ctx, m, c, msg, "C08.6-option-types", typed_validators=True)
+            n += 1
+            if r[0] == "return":
+                acc.append((nm, fam))
+            elif not (r[0] == "raise" and r[1].split("(")[0].strip().split(".")[-1] in ("ProtocolError", "InvalidUriError")):
+                ctx.ob(f"{c.name}.parse: option '{k}' bound to {nm} ends in a protocol error", False, f"{r[0]} {str(r[1])[:60]}", fn.loc())
+        if len(acc) == len(W) or not acc:
+            continue  # not read in this message form / needs further keys: no verdict from these cells
+        top = lambda f_: f_.split(":")[0]
+        fam = min((top(f_) for _, f_ in acc), key=_FAMILIES.index)
+        sub = None
+        if fam == "list":
+            subs = [f_.split(":")[1] for _, f_ in acc if ":" in f_]
+            order = ("bool", "int", "str", "ff", "ffbad", "list")
+            sub = min(subs, key=order.index) if subs else None
+        bad = []
+        for nm, f_ in acc:
+            if top(f_) == "none":
+                continue
+            if top(f_) != fam:
+                bad.append((nm, f"the key takes {fam} values, {nm} is wrongly typed" + (" (bool equality is numeric: 1 == True, 0 == False, 1.0 == True)" if fam == "bool" else "")))
+            elif fam == "list" and ":" in f_ and f_.split(":")[1] != sub:
+                bad.append((nm, f"the key takes lists of {sub}, {nm} holds a wrongly typed element"))
+        idk = k in ID_OPTIONS or k in ID_LIST_OPTIONS or k == "forward_for"
+        if idk:
+            out = [nm for nm, f_ in acc if nm in ("-1", "2**60", "[-1]", "[2**60]", "[{session: -1, ..}]", "[{session: 2**60, ..}]")]
+            if out:
+                bad.append(("ids outside 0..2^53", f"the key carries an id ({ID_OPTIONS.get(k) or ID_LIST_OPTIONS.get(k) or 'session id of a forwarding principal'}) but "
+                                                   f"{' and '.join(out)} are accepted (the type is checked, the range is not)"))
+        for nm, why in bad:
+            ctx.ob(f"{c.name}.parse: option '{k}' refuses {nm}", False, why + f"; accepted witnesses: {' '.join(a_ for a_, _ in acc)}", fn.loc())
+        if not bad:
+            ctx.ob(f"{c.name}.parse: option '{k}' accepts values of one type only ({fam}{' of ' + sub if sub else ''}){', ids in range' if idk else ''} [{len(W)} cells]",
+                   True, "", fn.loc())
+    return n
 
 
 def rule_envelope(ctx, rule_id="C08.4-envelope"):
@@ -504,9 +650,70 @@ def _subterms(t):
     return subterms(t)
 
 
+def _match_policy_cells(ctx, m, c, fmts):
+    """Messages with a `match` option and a URI position (SUBSCRIBE topic, REGISTER procedure): the grammar the URI is validated with must be the
+    one of the matching policy in force -- empty components only in a wildcard pattern, an empty last component only in a prefix, neither for
+    exact matching (also when the option is absent).  parse() is evaluated (sa.core.tiny) per policy; what is compared is the flags the URI
+    validator is called with for that position (the validator's own extension per flag is decided by the pattern obligations)."""
+    fn = c.methods["parse"]
+    if not any(isinstance(x, ast.Constant) and x.value == "match" for x in ast.walk(fn.node)):
+        return 0
+    consts = {s_.targets[0].id: s_.value.value for s_ in c.node.body if isinstance(s_, ast.Assign) and len(s_.targets) == 1 and isinstance(s_.targets[0], ast.Name)
+              and isinstance(s_.value, ast.Constant) and s_.targets[0].id.startswith("MATCH_")}
+    want = {"MATCH_EXACT": (False, False), "MATCH_PREFIX": (False, True), "MATCH_WILDCARD": (True, False)}
+    if not set(want) <= set(consts):
+        return 0
+    prefix = doc_prefix(ctx, m, c, [min(fmts, key=len)])
+    dpos = [i for i, v in enumerate(prefix) if isinstance(v, dict)]
+    upos = [i for i, v in enumerate(prefix) if v == "com.x.y"]
+    if not dpos or not upos:
+        return 0
+    bad = []
+    n = 0
+    for pol in (None, "MATCH_EXACT", "MATCH_PREFIX", "MATCH_WILDCARD"):
+        msg = list(prefix)
+        msg[dpos[0]] = {} if pol is None else {"match": consts[pol]}
+        marker_uri = "com.x.marker"
+        msg[upos[-1]] = marker_uri
+        tr = []
+        r, made = parse_on(ctx, m, c, msg, "C08.7-uri-grammar-of-match-policy", typed_validators=True, trace=tr)
+        n += 1
+        tag = f"match {'absent (exact)' if pol is None else consts[pol]!r}"
+        calls = [b_ for f_, b_ in tr if f_ == "check_or_raise_uri" and b_.get("value") == marker_uri]
+        if r[0] != "return":
+            bad.append(f"{tag}: {r[0]} {str(r[1])[:40]}")
+        elif len(calls) != 1:
+            bad.append(f"{tag}: the URI goes through the URI validator {len(calls)} time(s)")
+        else:
+            got = (bool(calls[0].get("allow_empty_components")), bool(calls[0].get("allow_last_empty")))
+            exp = want[pol or "MATCH_EXACT"]
+            if got != exp:
+                bad.append(f"{tag}: URI validated with allow_empty_components={got[0]}, allow_last_empty={got[1]}; the policy's grammar is "
+                           f"allow_empty_components={exp[0]}, allow_last_empty={exp[1]} (e.g. 'a..b' {'accepted' if got[0] and not exp[0] else 'judged differently'})")
+    ctx.ob(f"{c.name}.parse: the URI is validated with the grammar of the matching policy in force (exact / prefix / wildcard / absent) [{n} cells]", not bad,
+           "; ".join(bad[:2]), fn.loc())
+    return n
+
+
+def rule_option_types(ctx):
+    ctx.rule("C08.6-option-types")
+    m, base, classes = _classes(ctx)
+    n = 0
+    for c, fmts in getattr(ctx, "_c08_optcells", []):
+        n += _option_type_cells(ctx, m, c, fmts)
+    ctx.per_rule[ctx.cur_rule]["cells"] = n
+    ctx.floor("C08.6-option-types", 60)
+    ctx.rule("C08.7-uri-grammar-of-match-policy")
+    k = 0
+    for c, fmts in getattr(ctx, "_c08_optcells", []):
+        k += 1 if _match_policy_cells(ctx, m, c, fmts) else 0
+    ctx.require(k >= 2, f"only {k} message classes with a match policy and a URI position found (SUBSCRIBE, REGISTER expected)")
+
+
 def run(ctx):
     rule_flow(ctx)
     rule_escape(ctx)
     rule_strictness(ctx)
     rule_envelope(ctx)
     rule_role_features(ctx)
+    rule_option_types(ctx)
